@@ -702,7 +702,7 @@ func enumerate(tier string, emit func(string)) {
 	// 4 classes: every DAG, every permutation
 	emitP(emit, 4, 3, []string{"f.-"})
 	// family RD (both tiers): the 4-class diamonds and redundant-direct shapes with the TOP class redefined
-	// (every applicable kind, cold and warm, all 60 orders): the re-merge of the bottom class must wait for
+	// (every applicable kind, all 60 orders; cold, and warm for the all-initform slot assignment): the re-merge of the bottom class must wait for
 	// BOTH middle classes (seeded change C12-diamond-redefinition-merged-once was only seen by thorough before)
 	for _, g := range shapesDiamond4 {
 		product(alphaTwo, 4, func(sl []string) {
@@ -711,8 +711,10 @@ func enumerate(tier string, emit func(string)) {
 				c2 := *c
 				c2.redef = &redefSpec{r: 0, def: nd}
 				emit(c2.String())
-				c2.warm = true
-				emit(c2.String())
+				if strings.Join(sl, ",") == "f.-,f.-,f.-,f.-" { // warm dispatch cache: one slot assignment is enough (time)
+					c2.warm = true
+					emit(c2.String())
+				}
 			}
 		})
 	}
